@@ -526,7 +526,7 @@ def run(tier, seed):
             else:
                 rec.update(exact=True, tin=tin, touts=touts, rows=sp[0], offs=sp[1])
         traces.append(rec)
-        tmeta.append({"case": c, "shown": shown, "key": key, "control": None})
+        tmeta.append({"case": c, "shown": shown, "key": key, "control": None, "r": pr[2].tolist() if rec["exact"] else []})
     # ---- negative controls: corrupted copies of recorded calls must be rejected by TLC
     controls = _controls(traces, tmeta)
     for rec, meta in controls:
@@ -589,10 +589,11 @@ def _controls(traces, tmeta):
     out, kinds = [], {"coefficient": 0, "order": 0, "relation": 0, "basis": 0, "offset": 0}
     cp = lambda x: json.loads(json.dumps(x))
     for rec, meta in zip(list(traces), list(tmeta)):
-        if rec["exact"] and kinds["coefficient"] < 3 and any(rec["rows"]):
-            i = next(k for k, row in enumerate(rec["rows"]) if row)
+        hit = [(i, t) for i, row in enumerate(rec["rows"]) for t, e in enumerate(row) if abs(meta["r"][e["j"] - 1]) > 1e-6] if rec["exact"] else []
+        if hit and kinds["coefficient"] < 3:
+            i, t = hit[-1]
             r2 = cp(rec)
-            r2["rows"][i][0]["c"][0] += 1 if r2["rows"][i][0]["c"][2] == 0 else 2
+            r2["rows"][i][t]["c"][0] += 1 if r2["rows"][i][t]["c"][2] == 0 else 2
             out.append((r2, {"control": "coefficient", "expect": "recombination-mismatch"}))
             kinds["coefficient"] += 1
         if rec["exact"] and kinds["offset"] < 2 and rec["offs"]:
